@@ -198,6 +198,10 @@ func buildFamilies() []family {
 			sc, what := jmpOffCase(i)
 			return kase{sc, "JMP|" + what, "jump offsets " + what}
 		}},
+		{"limits", 3 * 98, func(i int) kase {
+			sc, what := limitsCase(i)
+			return kase{sc, what, what}
+		}},
 		{"raw", ev.Pick(8000, 400000), func(i int) kase {
 			sc := genRaw(rng.New(uint64(i)+8<<40), valid)
 			return kase{sc, shape(sc), "opcode soup"}
@@ -331,6 +335,9 @@ func runCase(run *ev.Run, st *stats, fam string, idx int, k kase) {
 	case d.vmClass != d.specCls:
 		sig = fmt.Sprintf("state:%s:vm=%s:spec=%s", d.op, d.vmClass, d.specCls)
 		detail = fmt.Sprintf("after %s (step %d) the VM is %s (%s) and the specification is %s (%s)", d.op, d.step, d.vmClass, d.vmErr, d.specCls, d.specWhy)
+	case d.control:
+		sig = fmt.Sprintf("control:%s", d.op)
+		detail = fmt.Sprintf("%s (step %d) transfers control differently: vm %s, spec %s", d.op, d.step, d.vmStack, d.specStk)
 	case d.stackDif:
 		vk, sk := lastKind(d.vmStack), lastKind(d.specStk)
 		sig = fmt.Sprintf("stack:%s:vm=%s:spec=%s", d.op, vk, sk)
@@ -340,7 +347,11 @@ func runCase(run *ev.Run, st *stats, fam string, idx int, k kase) {
 		detail = fmt.Sprintf("final results differ: vm %s [%s] spec %s [%s]", r1.class, r1.canon, specClass, specCanon)
 	}
 	if d.tag != "" {
-		sig += ":" + d.tag
+		// the specification went through a rare, named rule at this
+		// instruction: the rule (not the opcode) identifies the root cause
+		// (how the difference shows - state class, stack or control transfer -
+		// varies with the rest of the script and is in the detail only)
+		sig = "rule:" + d.tag
 	}
 	run.Case(fam+"|"+k.cover+"|DIFF", true)
 	run.Violation(sig, id, k.desc+": "+detail, w)
